@@ -18,8 +18,11 @@ inline std::string oneLine(const std::string &s) {
 }
 
 // ---- worker body: runs in the process that executes the case
+extern "C" void __sanitizer_set_report_fd(void *fd);
 inline void workerBody(const PropDef &pd, const Case &cs, int timeout_s, int outfd) {
   dup2(outfd, 2); // sanitizer reports and library chatter go to the parent
+  int rfd = dup2(outfd, 250);
+  if (rfd >= 0) __sanitizer_set_report_fd((void *)(long)rfd); // reports survive a redirection of fd 2 (debug output of the library)
   int devnull = open("/dev/null", O_WRONLY);
   if (devnull >= 0) dup2(devnull, 1);
   alarm(timeout_s);
